@@ -3,6 +3,7 @@ package main
 import (
 	"fmt"
 	"math/rand"
+	"regexp"
 	"strconv"
 	"strings"
 	"unicode"
@@ -223,6 +224,11 @@ func lexOracles(ops []oper.Operator, src string, toks []*token.Token) (string, s
 			continue
 		}
 		if lexLiteralKinds[t.Kind] {
+			// --- lex-literal: a literal token is the whole leftmost-first match of the first
+			// documented literal form that matches the REST OF THE INPUT at that place
+			if want, form := literalAt(string(runes[t.Pos.Idx:])); want >= 0 && want != t.Pos.IdxEnd-t.Pos.Idx {
+				return fmt.Sprintf("token %d %q (kind %s) has %d runes, but the literal form %s matches %d runes there", i, clip(t.Lexeme), t.Kind, t.Pos.IdxEnd-t.Pos.Idx, form, want), "lex-literal"
+			}
 			continue
 		}
 		rest := string(runes[t.Pos.Idx:])
@@ -240,6 +246,41 @@ func lexOracles(ops []oper.Operator, src string, toks []*token.Token) (string, s
 		}
 	}
 	return "", ""
+}
+
+// the documented literal forms, in the documented order (the property's text and README; the same
+// texts the regenerated obligation GenTie.Lexer pins), compiled by the harness itself
+var literalForms = []struct {
+	name string
+	re   *regexp.Regexp
+}{
+	{"float (fractions)", regexp.MustCompile(`^(?:(?:0|[1-9][0-9]*)(?:[.][0-9]+)+(?:[eE][-+]?[0-9]+)?)`)},
+	{"float (exponents)", regexp.MustCompile(`^(?:(?:0|[1-9][0-9]*)(?:[.][0-9]+)?(?:[eE][-+]?[0-9]+)+)`)},
+	{"binary", regexp.MustCompile(`^(?:0b(?:0|1[0-1]*))`)},
+	{"hex", regexp.MustCompile(`^(?:0x(?:0|[1-9a-fA-F][0-9a-fA-F]*))`)},
+	{"octal", regexp.MustCompile(`^(?:0o(?:0|[1-7][0-7]*))`)},
+	{"integer", regexp.MustCompile(`^(?:(?:0|[1-9][0-9]*))`)},
+	{"string", regexp.MustCompile("^(?:\"(?:[^\"\\\\]*|\\\\[\"\\\\trnbf\\/]|\\\\u[0-9a-fA-F]{4})*\")")},
+	{"raw string", regexp.MustCompile("^(?:`[^`]*`)")},
+	{"time", regexp.MustCompile("^(?:'[^`\"']*')")},
+	{"identifier", regexp.MustCompile(`^(?:[a-zA-Z\p{L}_][a-zA-Z0-9\p{L}_]*)`)},
+}
+
+// literalAt: rune length of the first literal form matching at the start of rest (-1: none)
+func literalAt(rest string) (int, string) {
+	for _, f := range literalForms {
+		if m := f.re.FindString(rest); m != "" {
+			return len([]rune(m)), f.name
+		}
+	}
+	return -1, ""
+}
+
+func clip(s string) string {
+	if len(s) > 80 {
+		return s[:80] + "…"
+	}
+	return s
 }
 
 // byBuiltinRule: the token comes from one of the rules that precede the user operators: the
@@ -645,10 +686,102 @@ var lexFixed = []string{
 	"f(a, b)[0]{x: 1}", "-1", "- 1", "a--b", "a--->b", "a>>=b", "≤≤≤", "a××b", "a×××b", "a*** b", "[]", "a[]", "1.x", "1 .x", "a.e", "a?x", "a?(b)", "a.e+", "?x?", "0x.1", "e1", "1e1", "x1",
 }
 
+// long tokens and long inputs: lengths around the sizes of typical windows and buffers
+var lexLongLens = []int{31, 32, 33, 63, 64, 65, 66, 100, 127, 128, 129, 255, 256, 257, 1000}
+
+func lexLongSources(r *rand.Rand, thorough bool) []string {
+	g := lexFrag{r: r, clean: true}
+	lens := lexLongLens
+	if thorough {
+		lens = append(append([]int{}, lens...), 4095, 4096, 4097, 65535, 65536, 70000)
+	}
+	var out []string
+	rep := func(s string, n int) string { return strings.Repeat(s, n) }
+	for _, n := range lens {
+		d := g.digits(n)
+		if d[0] == '0' {
+			d = "1" + d[1:]
+		}
+		out = append(out,
+			d,                        // integer
+			"1"+rep("0", n-1)+" + 1", // 10…0
+			"0."+g.digits(n),         // fraction
+			"1."+g.digits(n/2)+"e"+g.digits(n/2+1), // fraction and exponent
+			"1e"+g.digits(n),                       // exponent
+			"0x1"+rep("aF", n/2), "0b1"+rep("01", n/2), "0o1"+rep("07", n/2),
+			"x"+rep("y1_", n/3+1), rep("é", n), "_"+rep("中", n), // identifiers
+			"true"+rep("x", n), rep("a", n)+" and "+rep("b", n),
+			`"`+rep("a", n)+`"`, `"`+rep(`\n`, n/2)+`"`, `"`+rep("é", n)+`" x`, `"`+rep(`\u00e9`, n/6+1)+`"`,
+			"`"+rep("r", n)+"`", "`"+rep("a\n", n/2)+"` z", "'"+rep("2", n)+"'",
+			`"`+rep("a", n), "'"+rep("b", n), // unterminated
+			rep(" ", n)+"a"+rep("\n", n)+"b", rep("\t", n)+"1", // white space runs
+			rep("+", n), rep("<", n)+"a", rep("-", n)+">", "a"+rep(".", n)+"b", rep("?", n), // operator runs
+			rep("a ", n), rep("1+", n)+"1", rep("(", n)+"x"+rep(")", n), rep("[1,", n)+"2"+rep("]", n), // many tokens
+			rep("a.b ", n/2), rep("x\n", n), rep("非 ", n),
+		)
+	}
+	return out
+}
+
+// operator-table histories: tables used one after the other in one process that a cache keyed by
+// anything coarser than the table itself would confuse — the same characters split differently,
+// the same kinds in another order, one operator more or less, the same kinds with other fixities.
+type lexHistory struct {
+	name   string
+	tables [][]oper.Operator
+	srcs   []string
+}
+
+func lexHistories() []lexHistory {
+	syms := func(fx oper.Fixity, ks ...string) []oper.Operator {
+		var os []oper.Operator
+		for _, k := range ks {
+			os = append(os, op(k, oper.BP_TERM, fx))
+		}
+		return os
+	}
+	L := oper.INFIX_L
+	return []lexHistory{
+		{"resplit-1", [][]oper.Operator{syms(L, "<=", ">", "="), syms(L, "<=", ">="), syms(L, "<", "=>", "="), syms(L, "<=>=")},
+			[]string{"a >= b", "a <= b", "a => b", "a <=>= b", "a > = b", "a<b", "a=b"}},
+		{"resplit-2", [][]oper.Operator{syms(L, "<<", "=="), syms(L, "<<=", "="), syms(L, "<", "<==")},
+			[]string{"a <<= b", "a == b", "a <== b", "a << b", "a<=b", "a = b"}},
+		{"resplit-words", [][]oper.Operator{syms(L, "ab", "c"), syms(L, "a", "bc"), syms(L, "abc"), syms(L, "c", "ab")},
+			[]string{"x ab y", "x a y", "x bc y", "x abc y", "x c y", "abc", "ab c"}},
+		{"permuted", [][]oper.Operator{syms(L, "+", "++", "+++"), syms(L, "+++", "+", "++"), syms(L, "++", "+++", "+")},
+			[]string{"a+++b", "a++b", "a+b", "a++++b"}},
+		{"grow-shrink", [][]oper.Operator{syms(L, "-", "->"), syms(L, "-", "->", "-->"), syms(L, "-"), syms(L, "->"), {}},
+			[]string{"a-->b", "a->b", "a-b", "a - > b"}},
+		{"same-kinds-other-fixity", [][]oper.Operator{syms(L, "!", "~"), syms(oper.PREFIX, "!", "~"), syms(oper.POSTFIX, "!", "~"), syms(oper.INFIX_N, "!", "~")},
+			[]string{"!a", "a!", "a ! b", "~a~"}},
+		{"ident-vs-symbol", [][]oper.Operator{syms(L, "in", "<"), syms(L, "i", "n<"), syms(L, "in<")},
+			[]string{"a in b", "a in< b", "a i b", "a n< b", "ain<b"}},
+		{"builtin-then-user", [][]oper.Operator{oper.BuiltIn(), append(append([]oper.Operator{}, oper.BuiltIn()...), op("=>", oper.BP_COND, oper.INFIX_R)), oper.BuiltIn(), syms(L, "=>"), oper.BuiltIn()},
+			[]string{"a >= b", "a => b", "a == b || !c", "a ? b : c", "a and b"}},
+	}
+}
+
+func lexHistoryCases() []Case {
+	var cs []Case
+	for _, h := range lexHistories() {
+		// every table, in order, on every source; then the whole round again (a poisoned cache
+		// shows on the second use of an earlier table as well)
+		for round := 0; round < 2; round++ {
+			for ti, t := range h.tables {
+				set := lexOpSet{fmt.Sprintf("history:%s#%d", h.name, ti), t}
+				for _, src := range h.srcs {
+					cs = append(cs, lexCase(set, src, "table-history"))
+				}
+			}
+		}
+	}
+	return cs
+}
+
 func init() {
 	register(&Stream{
 		Name: "lex",
-		Rule: "lexer.NewLexer(ops).Lex(src) vs the Lean model, token kinds, lexemes and positions. Inputs: a fixed corpus x all operator sets; five exhaustive families x operator sets, each uniformly sampled down to n/5 when its space is larger: all strings up to length 3 (thorough: 5) over a 19-character mixed alphabet (operator characters, letters incl. é, digits, . e x, three quotes, backslash, space, newline), number-ish strings (<=4/6 over 01.eE+-xbof8), quoted strings (a double quote followed by <=4/7 over double quote, backslash, u n a 0 F g / and newline), raw/time strings (<=4/6), words (<=4/5 over true/and letters, _ 1 . space 非); n random sources (half of them from well-formed fragments only) glued from token-ish fragments (six number forms and near misses, strings/raw strings/times with good and bad escapes, identifiers incl. non-ASCII, registered operators glued to words, true/false + letters, ./? + operator characters, stray characters, random code points up to U+32000, Unicode white space) with one-rune mutations. 13 operator sets: built-in, empty, prefix-overlapping, ./?-prefixed, identifier-like, all fixities, byte-vs-rune lengths, punctuation-prefixed, literal-like, nested, every operator character, mixed. Non-trivial = at least 2 runes; distinct = distinct request line.",
+		Rule: "lexer.NewLexer(ops).Lex(src) vs the Lean model, token kinds, lexemes and positions. Inputs: a fixed corpus x all operator sets; five exhaustive families x operator sets, each uniformly sampled down to n/5 when its space is larger: all strings up to length 3 (thorough: 5) over a 19-character mixed alphabet (operator characters, letters incl. é, digits, . e x, three quotes, backslash, space, newline), number-ish strings (<=4/6 over 01.eE+-xbof8), quoted strings (a double quote followed by <=4/7 over double quote, backslash, u n a 0 F g / and newline), raw/time strings (<=4/6), words (<=4/5 over true/and letters, _ 1 . space 非); n random sources (half of them from well-formed fragments only) glued from token-ish fragments (six number forms and near misses, strings/raw strings/times with good and bad escapes, identifiers incl. non-ASCII, registered operators glued to words, true/false + letters, ./? + operator characters, stray characters, random code points up to U+32000, Unicode white space) with one-rune mutations. Plus operator-table histories (tables used one after the other in one process: the same characters split differently, permuted, grown and shrunk, the same kinds with other fixities; two rounds) and long tokens / long inputs (every literal form, identifiers, operator and white-space runs, bracket nests and token sequences of 31..1000 runes, thorough: up to 70000). 13 operator sets: built-in, empty, prefix-overlapping, ./?-prefixed, identifier-like, all fixities, byte-vs-rune lengths, punctuation-prefixed, literal-like, nested, every operator character, mixed. Non-trivial = at least 2 runes; distinct = distinct request line.",
 		Gen: func(r *rand.Rand, n int, thorough bool) []Case {
 			sets := lexOpSets()
 			var cs []Case
@@ -656,6 +789,11 @@ func init() {
 				for _, set := range sets {
 					cs = append(cs, lexCase(set, s, "fixed"))
 				}
+			}
+			cs = append(cs, lexHistoryCases()...)
+			for i, src := range lexLongSources(r, thorough) {
+				cs = append(cs, lexCase(sets[i%len(sets)], src, "long"))
+				cs = append(cs, lexCase(sets[0], src, "long"))
 			}
 			for _, fam := range lexFamilies {
 				maxLen := fam.quick
